@@ -20,6 +20,9 @@ pub mod rank_sel;
 pub mod traits;
 pub mod utils;
 
+#[cfg(vigna_sux_rs_verif)]
+pub mod verif_hook;
+
 #[cfg(feature = "fuzz")]
 pub mod fuzz;
 
